@@ -95,6 +95,7 @@ CLAUSE_PROPERTY = {
     "PO_Weights": "C12",
     "PO_Uniform": "C12",
     "PO_BlobsOnlyIfAsked": "C12",
+    "PO_TrimESS": "C12",
 }
 
 
@@ -720,14 +721,14 @@ class Recorder:
             self._cfg = self._cfg or {}
         self._emit("Raised", what=repr(exc)[:300], step=(self._ev[-1]["ev"] if self._ev else "start"), site=raise_site(exc), exc=type(exc).__name__)
 
-    def posterior_event(self, flags, out, blobs_configured):
+    def posterior_event(self, flags, out, blobs_configured, ess_trim=None):
         """Project one posterior() call (C12)."""
         resample, trim, return_blobs, return_logw = flags
         n_expected = 3 + (1 if (return_blobs and blobs_configured) else 0) + (1 if return_logw else 0)
         arity_ok = isinstance(out, tuple) and len(out) == n_expected
         o = {"flags": [int(f) for f in flags], "resample": bool(resample), "arityOK": bool(arity_ok)}
         if not arity_ok:
-            o.update(lensEqual=False, rows=[], logwRowsOK=False, nonneg=False, sumOne=False, uniform=False)
+            o.update(lensEqual=False, rows=[], logwRowsOK=False, nonneg=False, sumOne=False, uniform=False, trimEssOK=True)
             self._emit("Posterior", **o)
             return
         x, w, logl = out[0], np.asarray(out[1], dtype=float), out[2]
@@ -775,6 +776,15 @@ class Recorder:
         o["nonneg"] = bool(np.all(w >= 0))
         o["sumOne"] = bool(abs(float(np.sum(w)) - 1.0) < 1e-9)
         o["uniform"] = bool(len(w) > 0 and np.allclose(w, 1.0 / len(w), rtol=1e-12, atol=0))
+        # trimming keeps at least the requested fraction of the untrimmed ESS (weights before resampling only)
+        ok_trim = True
+        if trim and not resample and ess_trim is not None and len(w) > 0 and np.all(np.isfinite(w)) and np.sum(w) > 0:
+            flw, _ = self.sampler.state.compute_logw_and_logz(1.0)
+            fw = np.exp(flw - np.max(flw))
+            ess_full = float(np.sum(fw) ** 2 / np.sum(fw ** 2))
+            ess_ret = float(np.sum(w) ** 2 / np.sum(w ** 2))
+            ok_trim = ess_ret >= float(ess_trim) * ess_full * (1.0 - 1e-9)
+        o["trimEssOK"] = bool(ok_trim)
         self._emit("Posterior", **o)
 
     def end_run(self):
